@@ -186,10 +186,13 @@ def intersect_measure(a, b) -> int:
 
 def _case(seed: int) -> Dict[str, Any]:
     import re
+    from fractions import Fraction
 
     from hv import gen, rt
 
     kw = dict(n_streams=2 + seed % 2, steps=seed % 3, p_zero_kernel=0.15, n_top=3, p_launch=0.8, overlap_streams=True)
+    if seed % 4 == 3:
+        kw["p_frac_kernel_dur"] = 0.6  # whole-number timestamps, fractional kernel durations: nothing is rounded, the ratio is over the exact lengths
     per_rank = gen.gen_trace_set(seed, n_ranks=1 + seed % 2, **kw)
     fails: List[Dict[str, Any]] = []
     n = 0
@@ -210,7 +213,7 @@ def _case(seed: int) -> Dict[str, Any]:
             comm, comp = [], []
             for a, b, i in zip(dev["ts"], dev["dur"], dev["name"]):
                 nm = stab[i]
-                iv = (int(a), int(a + b))
+                iv = (Fraction(float(a)), Fraction(float(a)) + Fraction(float(b)))  # exact (quarters are binary fractions)
                 if re.match(r"^nccl.*Kernel", nm):
                     comm.append(iv)
                 elif re.match(r"(^Memcpy)|(^Memset)|(^dma)", nm):
@@ -223,7 +226,7 @@ def _case(seed: int) -> Dict[str, Any]:
             exp = round(100 * intersect_measure(comm, comp) / den, 2)
             got = float(out[out["rank"] == rk]["comp_comm_overlap_pctg"].iloc[0])
             n += 1
-            if abs(got - exp) > 1e-6 or not (0 <= got <= 100):
+            if abs(got - float(100 * intersect_measure(comm, comp) / den)) > 0.005 + 1e-9 or not (0 <= got <= 100):  # any correct rounding to two decimals
                 fails.append({"what": "overlap_matches_measure", "input": {"seed": seed, "rank": rk, "events": per_rank[rk]}, "observed": got, "expected": exp})
     return {"n_checks": n, "fails": fails, "nontrivial": n > 0, "sample": {"seed": seed}, "clauses": {"overlap_matches_measure": n}}
 
